@@ -52,7 +52,9 @@ func (b *run) hook(name string, f func()) {
 	b.res = append(b.res, [2]string{name, cl})
 }
 
-func (b *run) next() { b.ctx = hx.WithBlock(b.ctx, b.ctx.BlockHeight()+1, blockTime(b.ctx.BlockHeight()+1)) }
+func (b *run) next() {
+	b.ctx = hx.WithBlock(b.ctx, b.ctx.BlockHeight()+1, blockTime(b.ctx.BlockHeight()+1))
+}
 
 func (b *run) must(what string, m sdk.Msg) hx.Outcome {
 	out := b.r.env.Deliver(b.ctx, m)
